@@ -24,6 +24,9 @@ func funcKey(fn *ssa.Function) string {
 		return funcKey(fn.Parent()) + strings.TrimPrefix(fn.Name(), fn.Parent().Name())
 	}
 	name := fn.Name()
+	if i := strings.IndexByte(name, '['); i > 0 {
+		name = name[:i] // instance of a generic function: keyed by the generic's name
+	}
 	pkgName := ""
 	if fn.Pkg != nil {
 		pkgName = fn.Pkg.Pkg.Name()
@@ -83,6 +86,8 @@ func (fx *FnExec) call(fr *frame, st *State, res ssa.Value, cc *ssa.CallCommon) 
 		if pkgPathOf(callee) == "github.com/sirupsen/logrus" {
 			return r
 		}
+	} else if gk := globalFuncKey(cc); gk != "" {
+		key = gk
 	} else {
 		return r
 	}
@@ -99,7 +104,7 @@ func (fx *FnExec) call(fr *frame, st *State, res ssa.Value, cc *ssa.CallCommon) 
 	off := 0
 	if cc.IsInvoke() {
 		st.ghost["call|"+key+"|recv"] = fx.val(fr, cc.Value)
-	} else if cc.StaticCallee().Signature.Recv() != nil && len(cc.Args) > 0 {
+	} else if cc.StaticCallee() != nil && cc.StaticCallee().Signature.Recv() != nil && len(cc.Args) > 0 {
 		st.ghost["call|"+key+"|recv"] = fx.coerce(fx.val(fr, cc.Args[0]), cc.Args[0].Type())
 		off = 1
 	}
@@ -168,6 +173,13 @@ func (fx *FnExec) call0(fr *frame, st *State, res ssa.Value, cc *ssa.CallCommon)
 			}
 		}
 		key := "dynamic call"
+		if gk := globalFuncKey(cc); gk != "" {
+			key = "function variable " + gk
+			if fc := fx.eng.db.Funcs[gk]; fc != nil {
+				fx.callSeq++
+				return fx.applyContract(fr, st, fc, nil, nil, args, cc.Signature(), rt, pos, gk)
+			}
+		}
 		if fa, ok := cc.Value.(*ssa.UnOp); ok {
 			if f, ok := fa.X.(*ssa.FieldAddr); ok {
 				pt := f.X.Type().Underlying().(*types.Pointer).Elem()
@@ -936,6 +948,12 @@ func (fx *FnExec) callEffects(fr *frame, cc *ssa.CallCommon, li *loopInfo, addrE
 	} else {
 		callee = cc.StaticCallee()
 		if callee == nil {
+			if gk := globalFuncKey(cc); gk != "" && fx.eng.db.Funcs[gk] != nil {
+				fc = fx.eng.db.Funcs[gk]
+				if fc.Pure {
+					return
+				}
+			}
 			out["*"] = true
 			return
 		}
@@ -1010,6 +1028,9 @@ func (fx *FnExec) modifiesEffect(x *CExpr, argOf map[string]ssa.Value, li *loopI
 	}
 	switch base.Op {
 	case "call":
+		if base.Name == "opaque" {
+			return
+		}
 		if base.Name == "mapof" {
 			// which map type? resolve statically when the argument is  param.field  or  param.field[...]
 			out["MD|"] = true
@@ -1088,3 +1109,13 @@ func (fx *FnExec) modifiesEffect(x *CExpr, argOf map[string]ssa.Value, li *loopI
 	out["*"] = true
 }
 
+
+// globalFuncKey: a call through a package-level function variable (e.g. thunks.TimeNow) is keyed pkg.Var.
+func globalFuncKey(cc *ssa.CallCommon) string {
+	if u, ok := cc.Value.(*ssa.UnOp); ok && u.Op == token.MUL {
+		if g, ok := u.X.(*ssa.Global); ok && g.Pkg != nil {
+			return g.Pkg.Pkg.Name() + "." + g.Name()
+		}
+	}
+	return ""
+}
